@@ -69,6 +69,12 @@ class Callee:
     def key(self):
         return self.res or self.def_
 
+    def __eq__(self, o):
+        return isinstance(o, Callee) and self.def_ == o.def_ and self.res == o.res and self.args_s == o.args_s
+
+    def __hash__(self):
+        return hash((self.def_, self.res))
+
     def __repr__(self):
         return "Callee(%s -> %s)" % (self.def_, self.res)
 
@@ -346,7 +352,8 @@ class TermEngine:
                 if st["k"] == "assign":
                     w.add(st["lhs"]["l"])
                     rv = st["rv"]
-                    if rv["k"] in ("ref", "rawptr") and rv.get("mut"):
+                    if rv["k"] in ("ref", "rawptr") and rv.get("mut") and \
+                            not any(e["p"] == "deref" for e in rv["place"]["proj"]):
                         w.add(rv["place"]["l"])
             t = blk["term"]
             if t["k"] == "call":
@@ -492,6 +499,10 @@ class TermEngine:
         return t
 
     def _field(self, t, e):
+        # `*boxed` lowers to boxed.0.pointer (Box -> Unique -> NonNull): value-transparent
+        if (e["name"] == "0" and e.get("owner") == "std::boxed::Box") or \
+                (e["name"] == "pointer" and e.get("owner") == "std::ptr::Unique"):
+            return t
         if isinstance(t, tuple):
             if t[0] == "agg" and t[1] in ("tuple", "adt", "closure"):
                 i = e["i"]
@@ -650,6 +661,18 @@ class TermEngine:
             self._assign(st, t["dest"], term, b, t["line"])
 
     # -- queries
+    def name_of(self, term, bb):
+        """debug name of a user variable that holds `term` at block bb, if any"""
+        st = self.state_out.get(bb, {})
+        for d in self.fn.debug:
+            if not d["place"]["proj"]:
+                v = st.get(d["place"]["l"])
+                if v == term:
+                    return d["name"]
+                if isinstance(v, tuple) and v and v[0] != "top" and strip_refs(v) == term:
+                    return d["name"]
+        return None
+
     def facts_at(self, b):
         """dominating branch facts at block b as [(cond_term, value, variants)]"""
         ef = getattr(self, "_ef", None)
@@ -663,7 +686,26 @@ class TermEngine:
         return out
 
 
+def strip_refs(t):
+    return t
+
+
 # ------------------------------------------------------------------ printing
+def stable(t, fn=None):
+    """line- and local-number-free rendering for instance keys"""
+    import re as _re
+    s = show(t)
+    def nm(m):
+        n = fn.local_name(int(m.group(1))) if fn is not None else None
+        return n or "_"
+    s = _re.sub(r"&mut _(\d+)", lambda m: "&mut " + nm(m), s)
+    s = _re.sub(r"μ\d+_(\d+)", lambda m: "μ" + nm(m), s)
+    s = _re.sub(r"(?<![A-Za-z0-9])_(\d+)", lambda m: nm(m), s)
+    s = _re.sub(r"φ\d+", "φ", s)
+    s = _re.sub(r"bb\d+:", "", s)
+    return s
+
+
 def show(t, depth=0):
     if depth > 8:
         return "…"
